@@ -11,7 +11,7 @@ use crate::ops::*;
 fn c14_cfg(tier: Tier) -> ProgCfg {
     ProgCfg {
         mix: OpMix { write: 8, abandon: 10, read: 1, meta: 1, remove: 1, ..OpMix::NONE },
-        wmix: WriteMix { bad_decls: true, meta: true, by_hash: true },
+        wmix: WriteMix { bad_decls: true, meta: true, by_hash: true, rich_matching: false, interfere: false },
         sizes: tier.pick(SizeMix::Normal, SizeMix::Boundary),
         keys: (1, 3),
         blobs: (1, 3),
@@ -140,5 +140,149 @@ pub fn c14() -> ProgEngine {
         after_step: c14_after,
         post: c14_post,
         min_nontrivial_pct: 50,
+    }
+}
+
+
+// ------------------------------------------------------------------------------------------
+// C14 proper: the program engine above plus commits that fail because a filesystem call fails
+// ("after a failed commit" in the property's quantifier): no temp file may remain then either.
+
+use super::{hash_of, Engine, WorkerEnv};
+use crate::ptrun::{run_supervised_opt, Decision, Paths};
+use proptest::prelude::*;
+use serde::{Deserialize, Serialize};
+
+#[derive(Clone, Debug, Serialize, Deserialize)]
+pub enum C14Case {
+    Prog(Program),
+    /// a single write whose `gate`-th mutating system call fails with `errno`
+    FailedCommit { prog: Program, gate: usize, errno: i32 },
+}
+
+pub struct C14 {
+    inner: ProgEngine,
+}
+
+pub fn c14_engine() -> C14 {
+    C14 { inner: c14() }
+}
+
+fn failed_commit_shapes() -> Vec<Program> {
+    let keys = vec!["fc".to_string()];
+    let mut out = Vec::new();
+    for fl in [Fl::Sync, Fl::Async] {
+        for (entry, keyed, declare, len) in [
+            (WEntry::OneShot, true, Declare::None, 30usize),
+            (WEntry::OneShot, false, Declare::None, 30),
+            (WEntry::Opts, true, Declare::Exact, 50),
+            (WEntry::Opts, false, Declare::None, 9000),
+            (WEntry::Create, true, Declare::None, 5),
+        ] {
+            let mut w = WriteSpec::simple(if keyed { Some(0) } else { None }, 0);
+            w.entry = entry;
+            w.declare = declare;
+            w.chunks = if w.streamed() { vec![len / 2] } else { vec![] };
+            out.push(Program { keys: keys.clone(), blobs: vec![crate::blob::Blob::new(len, 88)], steps: vec![Step { op: Op::Write(w), fl }] });
+        }
+    }
+    out
+}
+
+impl Engine for C14 {
+    type Case = C14Case;
+    fn id(&self) -> &'static str {
+        "C14"
+    }
+    fn rule(&self) -> String {
+        format!(
+            "{} Additionally (failed commits): single writes (one-shot / streamed / memory-mapped, keyed / by address, sync / async) run in a driver process under the ptrace \
+             supervisor with the g-th mutating system call failing (EIO / ENOSPC, every g): when the write returns an error then — unless the failing call was the \
+             removal of the temp file itself — the temp area is empty once the process has exited.",
+            self.inner.rule
+        )
+    }
+    fn assumptions(&self) -> Vec<String> {
+        let mut v = self.inner.assumptions();
+        v.push("a commit that fails because a filesystem call fails counts as 'a failed commit' of the property's quantifier; faults on the unlink of the temp file itself are excluded".into());
+        v
+    }
+    fn exhaustive(&self, _tier: Tier) -> Vec<C14Case> {
+        let mut out = Vec::new();
+        for prog in failed_commit_shapes() {
+            for gate in 0..26 {
+                out.push(C14Case::FailedCommit { prog: prog.clone(), gate, errno: if gate % 2 == 0 { 5 } else { 28 } });
+            }
+        }
+        out
+    }
+    fn exhaustive_note(&self, _tier: Tier) -> String {
+        "10 write shapes x every mutating system call of the write failing once (EIO / ENOSPC alternating)".into()
+    }
+    fn random_cases(&self, tier: Tier) -> u32 {
+        self.inner.random_cases(tier)
+    }
+    fn strategy(&self, tier: Tier) -> BoxedStrategy<C14Case> {
+        let shapes = failed_commit_shapes();
+        let n = shapes.len();
+        prop_oneof![
+            12 => self.inner.strategy(tier).prop_map(C14Case::Prog),
+            1 => (0..n, 0usize..26, prop_oneof![Just(5), Just(28), Just(13)]).prop_map(move |(i, gate, errno)| C14Case::FailedCommit { prog: shapes[i].clone(), gate, errno }),
+        ]
+        .boxed()
+    }
+    fn max_shrink_iters(&self) -> u32 {
+        600
+    }
+    fn run_case(&self, c: &C14Case, st: &mut Stats, env: &mut WorkerEnv) -> Result<(), String> {
+        match c {
+            C14Case::Prog(p) => self.inner.run_case(p, st, env),
+            C14Case::FailedCommit { prog, gate, errno } => {
+                env.scratch.reset();
+                let paths = Paths::new(&env.scratch.root, &env.scratch.cache, &env.scratch.scratch, prog);
+                let mut hit: Option<String> = None;
+                let run = run_supervised_opt(&paths, 0, 1, false, None, true, |g, idx| {
+                    if idx == *gate {
+                        hit = Some(format!("{} -> errno {errno}", g.short()));
+                        if g.name.starts_with("unlink") {
+                            // the removal of the temp file itself: not a case of this check
+                            hit = Some("unlink".into());
+                            return Decision::Continue;
+                        }
+                        Decision::Errno(*errno)
+                    } else {
+                        Decision::Continue
+                    }
+                })?;
+                st.eval(1);
+                if run.status != "e0" {
+                    return Err(format!("the writer process ended abnormally ({}) with fault {:?}", run.status, hit));
+                }
+                let out = run.outs.first().map(|o| o.1.clone()).ok_or("INFRA: no driver output")?;
+                if out.is_panic() {
+                    return Err(format!("write with fault {:?}: {}", hit, out.short()));
+                }
+                let ctx = Ctx::new(env.scratch.cache.clone(), env.scratch.scratch.clone(), &prog.keys, &prog.blobs);
+                if out.is_err() && hit.as_deref() != Some("unlink") {
+                    let left = tmp_entries(&ctx);
+                    if !left.is_empty() {
+                        return Err(format!(
+                            "the commit failed ({}) after {} and the writer is gone (its process has exited), but temporary files remain: {left:?}",
+                            out.short(),
+                            hit.clone().unwrap_or_default()
+                        ));
+                    }
+                    st.class("failed_commit_by_io_error");
+                    st.class("nontrivial");
+                    st.nontrivial(hash_of(c));
+                } else {
+                    st.class("fault_did_not_fail_the_commit");
+                }
+                Ok(())
+            }
+        }
+    }
+    fn health(&self, st: &Stats, tier: Tier) -> Result<(), String> {
+        self.inner.health(st, tier)
     }
 }
